@@ -34,6 +34,9 @@ else:
 GUARD = "POLYPLY_VERIF"
 os.environ[GUARD] = "1"
 os.environ.setdefault("TQDM_DISABLE", "1")
+# the workloads are many tiny numpy/scipy calls: BLAS/OpenMP thread pools only cost (oversubscription)
+for _var in ("OMP_NUM_THREADS", "OPENBLAS_NUM_THREADS", "MKL_NUM_THREADS", "NUMEXPR_NUM_THREADS"):
+    os.environ.setdefault(_var, "1")
 if REPO not in sys.path:
     sys.path.insert(0, REPO)
 if HERE not in sys.path:
